@@ -27,10 +27,11 @@ const (
 	lopLitBp1
 	lopLit256K
 	lopTwin0
+	lopLit600K
 	nLop
 )
 
-var lopNames = []string{"copy0", "copy1", "copyLast", "copyRem", "lit1", "litB-1", "litB", "litB+1", "lit256K+1", "twin0"}
+var lopNames = []string{"copy0", "copy1", "copyLast", "copyRem", "lit1", "litB-1", "litB", "litB+1", "lit256K+1", "twin0", "lit600001"}
 
 // twin returns a block with the same weak checksum but different content:
 // bytes (x,y,y,x) at positions 0..3 become (y,x,x,y).
@@ -84,6 +85,9 @@ func c02Apply(l c02Layout, basis []byte, script []int, salt uint32) []byte {
 			out = append(out, genData(famHash, 256*1024+1, salt+uint32(j)+400)...)
 		case lopTwin0:
 			out = append(out, twin(basis[:B])...)
+		case lopLit600K:
+			// long enough for the sender's mid-search flush: more than one chunk follows when the run passes 256 KiB
+			out = append(out, genData(famHash, 600001, salt+uint32(j)+500)...)
 		}
 	}
 	return out
@@ -93,12 +97,14 @@ func c02BuildSenderLarge(tier string) core.Source {
 	var layouts []c02Layout
 	if tier != "thorough" {
 		// quick: the generator's minimum block size and one multiple-of-8 size, scripts of depth <=2
-		layouts = []c02Layout{{700, 2, 2}, {2048, 3, 2}}
+		// and two block lengths above the sender's 256 KiB read chunk (legal up to 2^29 in protocol 27)
+		layouts = []c02Layout{{700, 2, 2}, {2048, 3, 2}, {262145, 2, 2}, {300000, 2, 2}}
 	} else {
 		for _, B := range []int{700, 704, 1024, 2048, 4096, 8192, 65536, 131072} {
 			layouts = append(layouts, c02Layout{B, 2, 3}, c02Layout{B, 5, 3})
 		}
 		layouts = append(layouts, c02Layout{700, 1200, 2}, c02Layout{1024, 800, 2})
+		layouts = append(layouts, c02Layout{262144, 2, 2}, c02Layout{262145, 2, 2}, c02Layout{300000, 3, 2}, c02Layout{1 << 20, 2, 2})
 	}
 	type cs struct {
 		l     c02Layout
